@@ -180,4 +180,30 @@ theorem reenabled_flag_escapes :
     fieldVals (run fixed {} [.newArr [0, 1], .fieldFromArr 0 2, .setFlag 0 true, .writeArr 0 0 5]) 0 = [5, 1] := by
   decide
 
+/-- `np.asarray` is the identity on exact ndarrays: the same object, nothing allocated -/
+theorem asarray_exact_identity (cfg : Cfg) (s : State) (a : Nat) (ao : Arr) (h : s.arrs[a]? = some ao)
+    (he : ao.exact = true) : eff cfg s (.asArray a) = { ret := Ref.arr a } := by
+  simp [eff, h, he]
+
+/-- on an instance of an ndarray subclass `np.asarray` allocates a NEW base-class view: same buffer, same window, the flag of the
+    source at that moment, `.base` = the source -/
+theorem asarray_subclass_view (cfg : Cfg) (s : State) (a : Nat) (ao : Arr) (h : s.arrs[a]? = some ao)
+    (he : ao.exact = false) :
+    (eff cfg s (.asArray a)).newArr = some { buf := ao.buf, off := ao.off, len := ao.len, writeable := ao.writeable,
+                                              base := Base.view a, exact := true } := by
+  simp [eff, h, he]
+
+/-- why a constructor must lock the object it was handed and not `np.asarray` of it: for a subclass source (np.memmap, a user
+    subclass) the view is another object, locking it leaves the caller's handle writable (the history is unguarded: a writable
+    alias exists at construction) and a write through the source changes the field; constructing from the source itself is
+    guarded and protects the field, also against views made afterwards -/
+def asarrayAttack : List Op := [.newSub [0, 1, 2, 3], .asArray 0, .fieldFromArr 1 4, .writeArr 0 0 99]
+def subclassSource : List Op := [.newSub [0, 1, 2, 3], .fieldFromArr 0 4, .writeArr 0 0 99, .asArray 0, .writeArr 1 0 98]
+
+theorem asarray_view_escapes :
+    guards fixed {} asarrayAttack = false ∧
+    fieldVals (run fixed {} asarrayAttack) 0 = [99, 1, 2, 3] ∧
+    guards fixed {} subclassSource = true ∧
+    fieldVals (run fixed {} subclassSource) 0 = [0, 1, 2, 3] := by decide
+
 end NiftyVerif.C07
